@@ -168,7 +168,11 @@ def check_C13(rep, fl):
         for atom, val in s.lits:
             ea = norm(inc.expand(atom))
             if ea[0] == "bin" and ea[1] == "Lt" and ea[3] == ("const", 15, "u8") and val is True:
-                np_ = nibble_parts(ea[2])
+                lhs = ea[2]
+                if (is_call(lhs, ROW + "::get") or is_call(lhs, "CountMinRow::get")) and len(lhs[2]) == 2 and norm(lhs[2][0]) == V("self"):
+                    # `self.get(i) < 15`: the accessor checked under R13.1, applied to this row
+                    lhs = norm(subst(norm(return_expr(get)), {V(get.local_name.get(2, "i")): norm(lhs[2][1])}))
+                np_ = nibble_parts(lhs)
                 if np_ and np_[0] == gidx and np_[1] == gshift and np_[2] == 15:
                     found = True
         if not found:
@@ -711,6 +715,26 @@ def loop_pos(body, call_t):
     return e, rng
 
 
+def clamp_of(body, at, var):
+    """C when the variable is clamped from below to the constant C before use: `if v < C { v = C }` (the
+    assignment is reached only with v < C known) or `let v = v.max(C)`; None otherwise."""
+    l = body.name_local.get(var[1]) if var[0] == "var" else None
+    if l is None:
+        return None
+    got = None
+    for a_, b_ in body.defs.get(l, []):
+        d = norm(body.def_expr(a_, b_, False))
+        if (is_call(d, "Ord::max") or is_call(d, "cmp::max") or is_call(d, "max")) and len(d[2]) == 2:
+            cs = [x for x in d[2] if x[0] == "const" and isinstance(x[1], int)]
+            if len(cs) == 1:
+                got = cs[0][1]
+        if d[0] == "const" and isinstance(d[1], int):
+            sts = at.get((a_, b_), set())
+            if sts and all(feval(("atom", ("bin", "Lt", var, d)), s) is True for s in sts):
+                got = d[1]
+    return got
+
+
 def check_bloom_sizing(rep, fl, set_off):
     """get_size yields (2^exp, exp) with exp >= 9; Bloom::new derives size mask, shift and the
     word count from it; the byte offset computed by set() stays inside the allocation."""
@@ -765,20 +789,19 @@ def check_bloom_sizing(rep, fl, set_off):
                 # return only when !(size < n)
                 rb = gs.defs[0][0]
                 ok = all(feval(("not", ("atom", ("bin", "Lt", size_v, nvar))), s) is True for s in at.get((rb[0], rb[1]), set()))
-                # clamp: n assigned const C on the edge n < C
-                nl = gs.name_local.get(nvar[1])
-                for a_, b_ in gs.defs.get(nl, []):
-                    d = norm(gs.def_expr(a_, b_, False))
-                    if (is_call(d, "Ord::max") or is_call(d, "cmp::max") or is_call(d, "max")) and len(d[2]) == 2:
-                        # `let n = n.max(C)`: the same clamp written with the combinator
-                        cs = [x for x in d[2] if x[0] == "const" and isinstance(x[1], int)]
-                        if len(cs) == 1:
-                            min_n = cs[0][1]
-                    if d[0] == "const":
-                        sts = at.get((a_, b_), set())
-                        if all(feval(("atom", ("bin", "Lt", nvar, d)), s) is True for s in sts):
-                            # and the other edge keeps n >= C
-                            min_n = d[1]
+                # clamp: n assigned const C on the edge n < C - in get_size itself, or by every caller before the call
+                min_n = clamp_of(gs, at, nvar)
+                if min_n is None and nvar[0] == "var" and 1 <= gs.name_local.get(nvar[1], 0) <= gs.arg_count:
+                    mins = []
+                    for cb in facts.bodies:
+                        if not user_code(cb) or "::test" in cb.spath:
+                            continue
+                        for cbi, ct in calls_to(cb, "bbloom::get_size"):
+                            av = norm(cb.call_args(ct, expand_vars=False)[gs.name_local[nvar[1]] - 1])
+                            cat, _ce = dataflow(cb)
+                            mins.append(clamp_of(cb, cat, av) if av[0] == "var" else (av[1] if av[0] == "const" else None))
+                    if mins and all(m_ is not None for m_ in mins):
+                        min_n = min(mins)
     rep.check(ok and min_n is not None, "R14.5", fl, gs, "get_size shape",
               "get_size: n clamped to >= %s; size = 1, exp = 0; while size < n { size <<= 1; exp += 1 } => size == 2^exp >= n" % min_n,
               "get_size no longer has the recognised power-of-two doubling shape (size=1, exp=0, paired size<<=1 / exp+=1 while size < max(n, C)): size == 2^exp cannot be established")
